@@ -1,22 +1,25 @@
 #!/bin/bash
-# run_seeds.sh [<id> ...]: for each seeded change under /verif/seeded/<id>/ apply patch.diff to /repo,
-# run the quick checks listed below, restore /repo (tools/try_seed.py always restores), and store
-# the verdict lines in seeded/<id>/result.json.  Never leaves /repo modified.
+# run_seeds.sh [<id> ...]: for each seeded change under /verif/seeded/<id>/ (ids C01..C19, W2-Cxx,
+# W3-Cxx, W4-Cxx) apply patch.diff to /repo, run the quick checks listed below, restore /repo
+# (tools/try_seed.py always restores), and store the verdict lines in seeded/<id>/result.json and
+# the replays in seeded/<id>/replay-<prop>.json.  Never leaves /repo modified.
 cd /verif
 declare -A CHECKS=(
  [C01]="C01 C08" [C02]="C02 C01" [C03]="C03" [C04]="C04" [C05]="C05" [C06]="C06 C07" [C07]="C07 C06"
  [C08]="C08 C01" [C09]="C09" [C10]="C10" [C11]="C11" [C12]="C12" [C13]="C13" [C14]="C14" [C15]="C15"
  [C16]="C16 C05" [C17]="C17" [C18]="C18" [C19]="C19"
 )
-ids="$@"; [ -z "$ids" ] && ids=$(ls seeded | grep "^C[0-9][0-9]$")
+ids="$@"; [ -z "$ids" ] && ids=$(ls seeded | grep -E "^(W[0-9]-)?C[0-9][0-9]$")
 for id in $ids; do
   [ -f seeded/$id/patch.diff ] || continue
-  python3 tools/try_seed.py seeded/$id/patch.diff ${CHECKS[$id]} > /tmp/seedrun-$id.log 2>&1
+  c=${id##*-}
+  python3 tools/try_seed.py seeded/$id/patch.diff ${CHECKS[$c]} > /tmp/seedrun-$id.log 2>&1
   tail -1 /tmp/seedrun-$id.log > seeded/$id/result.json
-  for p in ${CHECKS[$id]}; do
+  for p in ${CHECKS[$c]}; do
     f=$(grep -o "replay=/verif/evidence/replays/$p-[A-Za-z0-9_.-]*json" /tmp/seedrun-$id.log | head -1 | cut -d= -f2)
     [ -n "$f" ] && [ -f "$f" ] && cp "$f" seeded/$id/replay-$p.json
   done
   echo "$id: $(grep -E '^C[0-9]+ ' /tmp/seedrun-$id.log | cut -c1-160 | tr '\n' ';')"
 done
 git -C /repo status --short
+echo ALLDONE
